@@ -87,6 +87,7 @@ func runC08(r *Run) {
 	c08SlowStats(r)
 	c08ExpiresMidSend(r)
 	c08ViaProxy(r)
+	c08QueuedUnary(r)
 	c08WireHeaders(r)
 	topoSweep(r, "deadline")
 }
